@@ -46,6 +46,13 @@ type Sys interface {
 	Close()
 }
 
+// Replayer is optionally implemented by a Sys that can re-establish an already
+// explored history faster than by Do-ing every step (e.g. without re-running the
+// oracles on the prefix). The key reached is still compared with the recorded one.
+type Replayer interface {
+	Replay(hist []string) error
+}
+
 // Options control one exploration.
 type Options struct {
 	// New builds a fresh instance in its initial state. worker identifies the
@@ -63,6 +70,8 @@ type Options struct {
 	MaxStates int64
 	// Stop aborts the search when it returns true.
 	Stop func() bool
+	// NoFastReplay forces step-by-step Do even if the system implements Replayer.
+	NoFastReplay bool
 	// Expandable, if set, can veto the expansion of a state (e.g. a state in
 	// which a violation was already reported).
 	Expandable func(key string) bool
@@ -147,6 +156,13 @@ func Run(o Options, onPanic func(hist []string, v any)) Result {
 				panic(fmt.Sprintf("seqmc: New: %v", err))
 			}
 			atomic.AddInt64(&res.Replays, 1)
+			if rp, ok := s.(Replayer); ok && len(hist) > 0 && !o.NoFastReplay {
+				if err := rp.Replay(hist); err != nil {
+					panic(fmt.Sprintf("seqmc: replay of %v failed: %v", hist, err))
+				}
+				atomic.AddInt64(&res.ReplaySteps, int64(len(hist)))
+				return
+			}
 			for i, a := range hist {
 				if err := s.Do(a); err != nil {
 					panic(fmt.Sprintf("seqmc: replay diverged at %d (%s): %v", i, a, err))
